@@ -595,9 +595,46 @@ def check_C15(ctx):
                   ASSUME_COMMON + ["hooks: serde_saphyr::verif_hooks::{anchor_state, missing_field_fallback} (read-only, cfg serde_saphyr_verif)"])
 
 
+# ------------------------------------------------------------------------------------------------
+# C16 (Locations)
+# ------------------------------------------------------------------------------------------------
+def check_C16(ctx):
+    q = ctx.quick()
+    cases = ctx.path("cases.ndjson")
+    run_mc(ctx, "MC_Locations", dict(MaxLen=4 if q else 5), ["InvOrigin", "InvInjective", "InvMonotone", "InvCRLF", "EmitCase"], workers=8,
+           timeout=3000, cases_out=cases, label="MC_Locations")
+    ctx.exhaustive = True
+    recs = ctx.path("recs.ndjson")
+    st = run_vh(ctx, ["c16", "--cases", cases, "--out", recs, "--random", 400 if q else 6000, "--seed", ctx.seed], timeout=6000)
+    ctx.evaluations += st["records"]
+    ctx.distinct_nontrivial += st["nontrivial"]
+    ctx.samples += st["samples"]
+    for k in ("span_records", "err_records", "syn_records", "with_alias", "with_merge", "alias_keys", "err_through_alias_or_merge"):
+        ctx.notes[k] = st[k]
+    mism = run_tv(ctx, "TV_Locations", recs, timeout=6000, shards=12)
+    matchers = {"C16-quoted-span-runs-to-line-end": lambda rec, d: isinstance(d, dict) and d.get("verdict") == "quoted-span-runs-past-closing-quote"}
+    classify_mismatches(ctx, mism, recs, matchers, "a reported location is inconsistent with the text or names the wrong node / site (Locations!LVerdict, ErrSites)")
+    return finish(ctx, "model_checking",
+                  "coordinates: every text of <= 4/5 characters over {1-, 2-, 4-byte character, TAB, LF, CR} (TLC: laws of LineAt / ColAt / "
+                  "ByteAt) written as comment lines in front of a document with multi-byte key, anchored quoted value and alias, read with "
+                  "every node span-wrapped; attribution: random documents (multi-byte scalars and keys, CRLF / CR / LF, tabs, comments, flow "
+                  "and block, anchors on values and keys, aliases as values and as keys, merge entries with alias / inline / list sources, "
+                  "byte order mark) read with every node span-wrapped and checked node by node against Locations!LVerdict; a type error "
+                  "provoked at every non-key node in turn (typed target asks for an integer there) checked against Locations!ErrSites; "
+                  "damaged variants (truncation, inserted / deleted character) for the consistency of syntax-error locations; non-trivial "
+                  "= documents with an alias or a merge",
+                  ASSUME_COMMON + ["independent positions come from saphyr-parser markers on the same text (the parser is trusted for where a "
+                                   "node starts; the four coordinates are re-derived from the text by Locations!Consistent)",
+                                   "exact source text is required for scalars written on one line; block scalars and multi-line scalars only "
+                                   "need a consistent span",
+                                   "the definition site of an error below an alias / merge entry is the anchored node (documented behaviour "
+                                   "of attach_alias_locations_if_missing), its use site the alias / merge source"])
+
+
 CHECKS = {
     "C02": check_C02,
     "C14": check_C14,
+    "C16": check_C16,
     "C15": check_C15,
     "C13": check_C13,
     "C20": check_C20,
